@@ -354,7 +354,7 @@ func init() {
 	core.Register(&core.Check{
 		ID:    "C20",
 		Level: "exploration",
-		Rule:  "histories are all sequences (up to a length bound, random longer ones) over {Register(type, name), Call on a literal, Call on a variable, CallInsideTemplate for 5 receiver types x names {f, g, a built-in name of that type}; LoadTemplates}, each replayed from the verif reset hook against a 20-line registry model: every registered function bakes a unique id into its result, so a call reveals which function is bound; conversion cases call a recording function with generated receivers and up to 3 arguments (integers incl. the 64-bit extremes, floats, strings, booleans, nil, nested arrays and objects to depth 3, as literals and as data) and compare what the function received with the plain Go value of the same content, and render a function result next to the same Go value passed as data, printed and probed through the same access paths; a callee that overwrites every map and slice it receives, called repeatedly with the same variables (each call must receive the original content, the variables and the caller's data stay as they were); functions returning a nil or an empty slice, whose result is used as an array; registered functions called through EvaluateFile, Template.String and Response (page, insert block, component file, slot body). round 8: non-UTF-8 receivers, unregistered names through every entry point under three error-page configurations; round 9: keyword-cased function names; scale: 400 names per type, 64 arguments; rounds 10-11: character references, signed zero, non-UTF-8 literals; round 13: 45 more function names (underscores, reserved words of other languages, directive words); distinct_nontrivial = distinct histories and distinct conversion cases",
+		Rule:  "histories are all sequences (up to a length bound, random longer ones) over {Register(type, name), Call on a literal, Call on a variable, CallInsideTemplate for 5 receiver types x names {f, g, a built-in name of that type}; LoadTemplates}, each replayed from the verif reset hook against a 20-line registry model: every registered function bakes a unique id into its result, so a call reveals which function is bound; conversion cases call a recording function with generated receivers and up to 3 arguments (integers incl. the 64-bit extremes, floats, strings, booleans, nil, nested arrays and objects to depth 3, as literals and as data) and compare what the function received with the plain Go value of the same content, and render a function result next to the same Go value passed as data, printed and probed through the same access paths; a callee that overwrites every map and slice it receives, called repeatedly with the same variables (each call must receive the original content, the variables and the caller's data stay as they were); functions returning a nil or an empty slice, whose result is used as an array; registered functions called through EvaluateFile, Template.String and Response (page, insert block, component file, slot body). round 8: non-UTF-8 receivers, unregistered names through every entry point under three error-page configurations; round 9: keyword-cased function names; scale: 400 names per type, 64 arguments; rounds 10-11: character references, signed zero, non-UTF-8 literals; round 13: 45 more function names (underscores, reserved words of other languages, directive words); round 15: white space around the dot of a call; distinct_nontrivial = distinct histories and distinct conversion cases",
 		Assumptions: []string{
 			"strings with < > & \" ' travel through the data map or come back as results only (a literal would be escaped, which is C10's business); an empty array may reach a function as a nil or an empty []any, never as untyped nil",
 			"the result of a function is limited by its Go signature (string, []any, int, float64, bool)",
